@@ -19,7 +19,7 @@ func storeBoundary(cc *ssa.CallCommon) bool {
 }
 
 func propC05(c *Check) {
-	c.Explain = "Panic-site inventory with guard discharge from (*VersionedTransaction).Validate over every module function it reaches through static calls, closures and non-store interface invokes (calls through the common.DataStore family are the analysis boundary). Every explicit panic, slice/array/string index, slice expression, integer division, unchecked type assertion, slice-to-array conversion, make with a possibly negative length, update of a possibly nil map, call into encoding/binary and math/big functions with documented panics, and every dereference of a pointer returned by a store call must be discharged by: a constant index into a fixed array; the range index of the same slice; interval facts on len(<access path>) or integer fields established by dominating branch edges in the function or at every call site on the way from the entry (fixpoint over the call graph, paths whose fields are stored to in the reachable code are not trusted); a dominating nil test; an explicit panic whose guard is refuted by those facts; or an entry of the reviewed invariant table /verif/tables/nopanic_C05.tsv (function, kind, construct, count, reason). Anything else is reported with its call chain. Also decided: the two callers that run validation without recover exist (popAndProcessCacheQueue, validateSnapshotTransaction) and peer bundles are queued without validation."
+	c.Explain = "Panic-site inventory with guard discharge from (*VersionedTransaction).Validate over every module function it reaches through static calls, closures and non-store interface invokes (calls through the common.DataStore family are the analysis boundary). Every explicit panic, slice/array/string index, slice expression, integer division, unchecked type assertion, slice-to-array conversion, make with a possibly negative length, update of a possibly nil map, call into encoding/binary and math/big functions with documented panics, and every dereference of a pointer returned by a store call must be discharged by: a constant index into a fixed array; the range index of the same slice; interval facts on len(<access path>) or integer fields established by dominating branch edges in the function or at every call site on the way from the entry (fixpoint over the call graph, paths whose fields are stored to in the reachable code are not trusted); a dominating nil test; an explicit panic whose guard is refuted by those facts; or an entry of the reviewed invariant table /verif/tables/nopanic_C05.tsv (function, kind, construct, count, reason). Anything else is reported with its call chain. Also decided: the two callers that run validation without recover exist (popAndProcessCacheQueue, validateSnapshotTransaction) and peer bundles are queued without validation. Validate's own count / index / extra-size bounds gate the first payload encoding; pointer-valued map lookups are nil-dereference sources; integer width model (value-preserving conversions, wrap-aware sums)."
 	c.NotCov = "general nil-dereference of pointers not returned by the store boundary, stack/allocation exhaustion, panics inside third-party and standard libraries other than the tabled calls; invariant-tabled sites are trusted as written."
 	f := c.F("(*common.VersionedTransaction).Validate")
 	if f == nil {
